@@ -79,7 +79,10 @@ class CNFizer(DagWalker):
                 elif not lit.is_false():
                     # Prune FALSE literals
                     simp.append(lit)
-            if simp:
+            if simp is not None:
+                if len(simp) == 0:
+                    # All the literals are FALSE: the clause is unsatisfiable
+                    return CNFizer.FALSE_CNF
                 res.append(frozenset(simp))
         return frozenset(res)
 
@@ -124,7 +127,7 @@ class CNFizer(DagWalker):
         k = self._key_var(formula)
         _cnf = [frozenset([self.mgr.Not(k)] + [a for a,_ in args])]
         for a,c in args:
-            _cnf.append(frozenset([k, self.mgr.Not(a)]))
+            _cnf.append(frozenset([k, self.mgr.Not(a).simplify()]))
             for clause in c:
                 _cnf.append(clause)
         return k, frozenset(_cnf)
